@@ -123,6 +123,11 @@ impl<H: Hasher> BatchMerkleProof<H> {
             return Err(MerkleTreeError::TooManyLeafIndexes(MAX_PATHS, indexes.len()));
         }
 
+        // the proof must claim exactly one leaf per index
+        if indexes.len() != self.leaves.len() {
+            return Err(MerkleTreeError::InvalidProof);
+        }
+
         let mut buf = [H::Digest::default(); 2];
         let mut v = BTreeMap::new();
 
@@ -239,6 +244,12 @@ impl<H: Hasher> BatchMerkleProof<H> {
                 i += 1;
             }
         }
+
+        // every node carried by the proof must have been used to compute the root
+        if proof_pointers.iter().zip(self.nodes.iter()).any(|(&used, nodes)| used != nodes.len()) {
+            return Err(MerkleTreeError::InvalidProof);
+        }
+
         v.remove(&1).ok_or(MerkleTreeError::InvalidProof)
     }
 
@@ -382,6 +393,11 @@ impl<H: Hasher> BatchMerkleProof<H> {
 
                 i += 1;
             }
+        }
+
+        // every node carried by the proof must have been used
+        if proof_pointers.iter().zip(self.nodes.iter()).any(|(&used, nodes)| used != nodes.len()) {
+            return Err(MerkleTreeError::InvalidProof);
         }
 
         original_indexes
